@@ -431,10 +431,25 @@ impl Gen<'_> {
             if matches!(n, 1 | 4 | 11 | 34 | 9 | 41) && self.cfg.discipline < 2 {
                 let v = self.imm();
                 self.emit(format!("li {}, {v}", self.reg("a0")));
+            } else if matches!(n, 5 | 9 | 41) && self.r.chance(1, 2) {
+                // a0 happens to hold the number of an exit service before the call overwrites it
+                let v = *self.r.pick(&[10i64, 93]);
+                self.emit(format!("li {}, {v}", self.reg("a0")));
             }
             self.emit(format!("li {}, {n}", self.reg("a7")));
         }
         self.emit("ecall".into());
+        if let Some(n) = n {
+            if matches!(n, 5 | 9 | 41) && self.r.chance(1, 3) {
+                // the value just returned decides which service is called next
+                if self.r.chance(1, 2) {
+                    self.emit(format!("mv {}, {}", self.reg("a7"), self.reg("a0")));
+                } else {
+                    self.emit(format!("addi {}, {}, 0", self.reg("a7"), self.reg("a0")));
+                }
+                self.emit("ecall".into());
+            }
+        }
         ctx.defined.retain(|r| r.starts_with('s') || *r == "zero");
         ctx.defined.push("a0");
     }
@@ -502,7 +517,13 @@ impl Gen<'_> {
                     let inner = 1 + self.r.usize(2);
                     let saved_defs = ctx.defined.clone();
                     self.body(ctx, inner, depth + 1);
-                    self.emit(format!("j {ld}"));
+                    if self.r.chance(1, 6) {
+                        // a jump that links into a scratch register
+                        let lr = *self.r.pick(&["t3", "a0", "t6", "s2"]);
+                        self.emit(format!("jal {}, {ld}", self.reg(lr)));
+                    } else {
+                        self.emit(format!("j {ld}"));
+                    }
                     let then_defs = std::mem::replace(&mut ctx.defined, saved_defs);
                     self.emit_label(&le);
                     let inner = 1 + self.r.usize(2);
@@ -655,7 +676,7 @@ impl Gen<'_> {
             2 => "lw t0, (".to_string(),
             3 => "addi t0, t0, 99999999999".to_string(),
             4 => ".asciz \"unterminated".to_string(),
-            5 => ".unknowndir 4".to_string(),
+            5 => (*self.r.pick(&[".unknowndir 4", ".unknowndir \"text\"", ".eqv LIMIT \"ten\""])).to_string(),
             6 => (*self.r.pick(&["li t0, 'ab'", "li a0, '\u{a0}' oops", ".asciz \"a\u{3000}b\u{a0}\" extra", "li a0, '\u{3000}' , , oops t1"])).to_string(),
             _ => ") stray".to_string(),
         };
@@ -687,7 +708,24 @@ impl Gen<'_> {
             self.emit_label("main");
         }
         let mut mctx = FnCtx { idx: None, frame: 0, saved: vec![], saves_ra: false, defined: vec!["zero"] };
-        if cfg.handler {
+        if cfg.handler && self.r.chance(1, 4) {
+            // the installation stands behind a label that, on paper, an exit ecall falls into
+            let (lf, li) = (self.fresh("fin"), self.fresh("inst"));
+            self.emit(format!("la {}, handler", self.reg("t0")));
+            self.emit(format!("j {li}"));
+            self.emit_label(&lf);
+            self.exit();
+            self.emit_label(&li);
+            self.emit(format!("csrrw {}, utvec, {}", self.reg("zero"), self.reg("t0")));
+            self.body(&mut mctx, 1, 1);
+            self.emit(format!("li {}, 0", self.reg("t0")));
+            if self.r.chance(1, 2) {
+                self.emit(format!("j {lf}"));
+            } else {
+                let c = self.cond(&mctx, &lf);
+                self.emit(c);
+            }
+        } else if cfg.handler {
             self.emit(format!("la {}, handler", self.reg("t0")));
             let s = match self.r.below(5) {
                 0 => format!("csrrw {}, utvec, {}", self.reg("zero"), self.reg("t0")),
